@@ -368,6 +368,23 @@ func Check(c Case) (v vcase.Verdict) {
 			}
 		}
 	}
+	// read-only queries on groups of keys (which fields distinguish them?) must leave
+	// every comparison as it was
+	if n >= 2 {
+		benchproc.NonSingularFields(keys)
+		for i := 0; i+1 < n; i++ {
+			benchproc.NonSingularFields([]benchproc.Key{keys[i], keys[i+1]})
+			benchproc.NonSingularFields([]benchproc.Key{keys[0], keys[i+1]})
+		}
+		for i := 0; i < n; i++ {
+			for j := 0; j < n; j++ {
+				if keys[i].Less(keys[j]) != lessM[i][j] {
+					v.Failf("expression %q: %q < %q was %v and is %v after NonSingularFields was asked about groups of these keys", text, keys[i], keys[j], lessM[i][j], !lessM[i][j])
+					return
+				}
+			}
+		}
+	}
 	// SortKeys: sorted permutation, same for every arrangement
 	var first []benchproc.Key
 	arrangements := append([][]int{nil}, c.Perms...)
@@ -466,7 +483,9 @@ func ranks(fs []*flatField) string {
 // ---------------------------------------------------------------------------
 
 var numUnamb = []string{"12", "1.5", "2k", "1Mi", "3GiB", "1e3", "NaN", "inf", "abc", "xyz", "100", "0.5", "1K", "2048", "1Ki", "-3", "10", "9", "1000", "1kB", "5B", "big",
-	"2G", "3T", "1P", "2E", "1Z", "2Y", "1Ti", "2Pi", "1Ei", "2EiB", "1Zi", "2ZiB", "1Yi", "3YiB", "1.5Gi", "999Zi", "1e30", "1e21", ".5k", ".25Mi", "5.k", ".5", "0.5k", "400", "200Ki", "5000"}
+	"2G", "3T", "1P", "2E", "1Z", "2Y", "1Ti", "2Pi", "1Ei", "2EiB", "1Zi", "2ZiB", "1Yi", "3YiB", "1.5Gi", "999Zi", "1e30", "1e21", ".5k", ".25Mi", "5.k", ".5", "0.5k", "400", "200Ki", "5000",
+	// plain numbers that need more than 24 bits, or more than float32's range, to tell apart
+	"99999999", "100000001", "16777217", "16777216", "1e39", "2e38", "9007199254740993", "123456789.5", "33554433"}
 var numArb = []string{"x1", "1k2", "..", "1m", "v2.0", "1.2.3", "k", "0x10", "1_0", "٣"}
 var wordVals = []string{"linux", "darwin", "b", "a", "c", "Z", "é", "aa", "B"}
 
